@@ -3,7 +3,7 @@
    preserves the solutions of the rule structure projected on the extracted (table column) variables,
    and the head values; the WHERE equalities produced from the remaining unifications are equivalent
    to them for non-null values. *)
-From Coq Require Import List ZArith Bool Arith Lia.
+From Coq Require Import List ZArith Bool Arith Lia Permutation.
 Import ListNotations.
 From LV Require Import Core.Syntax Core.Eval Core.Elim.
 
@@ -323,3 +323,117 @@ Proof.
 Qed.
 
 End Sound.
+
+(* ---------- correctness per row choice ---------- *)
+Section RowChoice.
+Variable app : nat -> list val -> val.
+
+Lemma filter_nil_all {A} (f : A -> bool) l : filter f l = [] -> forall x, In x l -> f x = false.
+Proof.
+  induction l as [|a l IH]; simpl; intros H x Hin; [contradiction|].
+  destruct (f a) eqn:E; [discriminate|]. destruct Hin as [->|Hin]; [exact E | apply IH; assumption].
+Qed.
+
+Lemma no_internal_all_extracted E s : internal_vars E s = [] -> forall x, In x (rs_vars s) -> In x E.
+Proof.
+  intros H x Hx. unfold internal_vars in H. pose proof (filter_nil_all _ _ H x Hx) as Hf.
+  apply negb_false_iff in Hf. apply memv_In, Hf.
+Qed.
+
+Lemma in_rs_vars_sel s f e x : In (f, e) (sel s) -> In x (pvars e) -> In x (rs_vars s).
+Proof.
+  intros H Hx. unfold rs_vars. apply in_or_app. left. apply in_flat_map. exists (f, e). auto.
+Qed.
+Lemma in_rs_vars_unif s l r x : In (l, r) (unifs s) -> In x (pvars l) \/ In x (pvars r) -> In x (rs_vars s).
+Proof.
+  intros H Hx. unfold rs_vars. apply in_or_app. right. apply in_or_app. left. apply in_flat_map.
+  exists (l, r). split; [exact H|]. simpl. apply in_or_app. exact Hx.
+Qed.
+Lemma in_rs_vars_cons s c x : In c (cons s) -> In x (pvars c) -> In x (rs_vars s).
+Proof.
+  intros H Hx. unfold rs_vars. apply in_or_app. right. apply in_or_app. right. apply in_flat_map. exists c. auto.
+Qed.
+
+(* a structure is read only through the variables it mentions *)
+Lemma where_holds_agree sg sg' s : (forall x, In x (rs_vars s) -> sg x = sg' x) ->
+  where_holds app sg s -> where_holds app sg' s.
+Proof.
+  intros A [H1 H2]. split.
+  - intros l r Hin Hne.
+    rewrite <- (peval_ext app sg sg' l), <- (peval_ext app sg sg' r).
+    + apply H1; assumption.
+    + intros x Hx. apply A. eapply in_rs_vars_unif; eauto.
+    + intros x Hx. apply A. eapply in_rs_vars_unif; eauto.
+  - intros c Hin. rewrite <- (peval_ext app sg sg' c); [apply H2, Hin|].
+    intros x Hx. apply A. eapply in_rs_vars_cons; eauto.
+Qed.
+
+Lemma output_agree sg sg' s : (forall x, In x (rs_vars s) -> sg x = sg' x) ->
+  output app sg s = output app sg' s.
+Proof.
+  intros A. unfold output. apply map_ext_in. intros [f e] Hin. simpl. f_equal.
+  apply peval_ext. intros x Hx. apply A. eapply in_rs_vars_sel; eauto.
+Qed.
+
+(* THE WHERE AND SELECT COMPUTED BY ELIMINATION ARE RIGHT FOR EVERY ROW CHOICE.
+   rho: the values of the extracted variables (one row per table of the FROM list).
+   (<-) whenever rho passes the final WHERE there is a solution of the rule structure that extends rho on the
+        extracted variables, and the final SELECT computes its head values;
+   (->) every solution of the rule structure whose remaining equalities compare non-null values passes the
+        final WHERE with the same head values. *)
+Theorem eliminate_row_choice is_x E s s' : eliminate is_x E s = Some (inr s') ->
+  forall rho : var -> val,
+  (solves app rho s' ->
+     exists sg, (forall x, In x E -> sg x = rho x) /\ solves app sg s /\ output app sg s = output app rho s') /\
+  (forall sg, (forall x, In x E -> sg x = rho x) -> solves app sg s ->
+     (forall s1 l r, represents app E s s1 -> In (l, r) (unifs s1) -> peval app sg l <> VNull) ->
+     solves app rho s' /\ output app rho s' = output app sg s).
+Proof.
+  intros H rho. destruct (eliminate_sound app is_x E s s' H) as [s1 [R [Hint [Hsel Hw]]]].
+  assert (Hout : forall sg, output app sg s' = output app sg s1).
+  { intros sg. unfold output. rewrite Hsel. reflexivity. }
+  split.
+  - intros Hs. apply Hw in Hs. pose proof (where_is_unification app rho s1 Hs) as Hs1.
+    destruct R as [_ B]. destruct (B rho Hs1) as [sg [Hsg [Ho A]]].
+    exists sg. split; [exact A|]. split; [exact Hsg|]. rewrite Ho, Hout. reflexivity.
+  - intros sg A Hsg Hnn. destruct R as [F B]. destruct (F sg Hsg) as [Hs1 Ho].
+    assert (Agree : forall x, In x (rs_vars s1) -> sg x = rho x).
+    { intros x Hx. apply A. eapply no_internal_all_extracted; eauto. }
+    assert (Hwh : where_holds app sg s1).
+    { apply unification_is_where_when_not_null; [exact Hs1|]. intros l r Hin. eapply Hnn; [|exact Hin]. split; assumption. }
+    split.
+    + apply Hw. eapply where_holds_agree; [exact Agree | exact Hwh].
+    + rewrite Hout, <- Ho. symmetry. apply output_agree, Agree.
+Qed.
+End RowChoice.
+
+(* ---------- two visiting orders that both succeed give the same answers ---------- *)
+Section Orders.
+Variable app : nat -> list val -> val.
+
+Definition same_structure (s t : rs) : Prop :=
+  sel s = sel t /\ Permutation (unifs s) (unifs t) /\ Permutation (cons s) (cons t).
+
+Lemma solves_same_structure sg s t : same_structure s t -> solves app sg s -> solves app sg t.
+Proof.
+  intros [_ [Pu Pc]] [H1 H2]. split.
+  - intros l r Hin. apply H1. eapply Permutation_in; [apply Permutation_sym, Pu | exact Hin].
+  - intros c Hin. apply H2. eapply Permutation_in; [apply Permutation_sym, Pc | exact Hin].
+Qed.
+
+Theorem elimination_orders_agree is_x E s t s' t' :
+  same_structure s t ->
+  eliminate is_x E s = Some (inr s') -> eliminate is_x E t = Some (inr t') ->
+  forall rho, solves app rho s' ->
+  (forall sg t1 l r, represents app E t t1 -> In (l, r) (unifs t1) -> peval app sg l <> VNull) ->
+  solves app rho t' /\ output app rho t' = output app rho s'.
+Proof.
+  intros Same Hs Ht rho Hrho Hnn.
+  destruct (eliminate_row_choice app is_x E s s' Hs rho) as [B _].
+  destruct (B Hrho) as [sg [A [Hsg Ho]]].
+  destruct (eliminate_row_choice app is_x E t t' Ht rho) as [_ F].
+  assert (Hsgt : solves app sg t) by (eapply solves_same_structure; eassumption).
+  destruct (F sg A Hsgt (fun t1 l r => Hnn sg t1 l r)) as [H1 H2]. split; [exact H1|].
+  rewrite H2, <- Ho. unfold output. destruct Same as [E1 _]. rewrite E1. reflexivity.
+Qed.
+End Orders.
